@@ -66,8 +66,8 @@ static pthread_mutex_t lk = PTHREAD_MUTEX_INITIALIZER;
 
 static int fail_mask, fail_nth, fail_err, rc_count, rc_failed;
 static const char *rc_last = "";
-static bool nb_watch;
-static int wait_seen;
+static __thread bool nb_watch;
+static __thread int wait_seen;
 
 #define LOG_MAX 65536
 static struct shim_ev evlog[LOG_MAX];
